@@ -93,11 +93,11 @@ func customLeaves(fallible bool) []customLeaf {
 		},
 		{
 			// a converter-typed parameter stays the converter also when its name matches arg:context:regex
-			Name:      "extend_conv_regexmatch",
-			Shape:     shape{Src: "PFXA", Tgt: "PFXB", Name: "extconvre", Decls: []string{base + "type PFXCtx struct{ Z int }\n" + fmt.Sprintf("func PFXExt(conv CNAME, a PFXA, ctxA PFXCtx) %s { %s }", errRes("PFXB"), ret("0"))}},
-			ConvLines: []string{"arg:context:regex ^(c|ctx)", "extend PFXExt"},
-			Custom:    map[string]string{"PFXA→PFXB": "PFXExt"},
-			CtxParam:  "ctxA PFXCtx",
+			Name:       "extend_conv_regexmatch",
+			Shape:      shape{Src: "PFXA", Tgt: "PFXB", Name: "extconvre", Decls: []string{base + "type PFXCtx struct{ Z int }\n" + fmt.Sprintf("func PFXExt(conv CNAME, a PFXA, ctxA PFXCtx) %s { %s }", errRes("PFXB"), ret("0"))}},
+			ConvLines:  []string{"arg:context:regex ^(c|ctx)", "extend PFXExt"},
+			Custom:     map[string]string{"PFXA→PFXB": "PFXExt"},
+			CtxParam:   "ctxA PFXCtx",
 			OnlyStruct: true,
 		},
 		{
@@ -255,6 +255,7 @@ func nestings(g *shapeGen, leaf shape, thorough bool) []shape {
 		{"struct", "ptr"}, {"slice", "slice"}, {"map", "slice"}, {"struct", "struct"}, {"rec", "struct"},
 		{"mapnk", "struct"}, {"struct", "mapnk"}, {"anon", "slice"}, {"slice", "map"}, {"addr", "struct"}, {"struct", "deref"},
 		{"recp"}, {"struct", "recp"}, {"slice", "recp"},
+		{"slice", "addr"}, {"map", "addr"}, {"struct", "addr"}, {"slice", "struct", "addr"}, {"anon", "addr"},
 		{"slice", "anon2f"}, {"struct", "slice", "anon", "anon2f"}, {"map", "anon", "anon2f"}, {"struct", "map", "slice", "anon2f"}, {"slice", "slice", "slice", "anon2f"},
 	}
 	for _, d := range deep {
@@ -417,8 +418,8 @@ func FamilyError(thorough bool) []*Conv {
 					"type PFXBaseS struct {\n\tAge PFXA\n\tL []PFXA\n}\ntype PFXBaseT struct {\n\tAge PFXB\n\tL []PFXB\n}\ntype PFXRowS struct {\n\tPFXBaseS\n\tN int\n}\ntype PFXRowT struct {\n\tPFXBaseT\n\tN int\n}\n",
 				ConvLines:   []string{"extend PFXExt"},
 				MethodLines: []string{"map PFXBaseS PFXBaseT"},
-				Spec: &Spec{Custom: map[string]string{"PFXA→PFXB": "PFXExt"}, Pairs: map[string]*PairSpec{"PFXRowS→PFXRowT": {Fields: map[string]*FieldSpec{"PFXBaseT": {Path: []string{"PFXBaseS"}}}}}},
-				Bounds: &Bounds{MaxSlice: 2, MaxMap: 1, RecDepth: 1},
+				Spec:        &Spec{Custom: map[string]string{"PFXA→PFXB": "PFXExt"}, Pairs: map[string]*PairSpec{"PFXRowS→PFXRowT": {Fields: map[string]*FieldSpec{"PFXBaseT": {Path: []string{"PFXBaseS"}}}}}},
+				Bounds:      &Bounds{MaxSlice: 2, MaxMap: 1, RecDepth: 1},
 			}
 			switch wrap {
 			case "_wrap":
@@ -657,6 +658,38 @@ func declaredMethodConvs() []*Conv {
 					"Extra": {Ignore: true},
 				}}}},
 			})
+		}
+	}
+	// a declared method (or extend function) that needs a context which the calling method cannot supply: the
+	// pair must not silently fall back to the automatic conversion - generation fails
+	for i, w := range []struct{ name, src, tgt, extraDecl, pairS, pairT string }{
+		{"slice", "[]PFXIn", "[]PFXOut", "", "PFXIn", "PFXOut"},
+		{"field", "PFXWs", "PFXWt", "type PFXWs struct{ Inner PFXIn }\ntype PFXWt struct{ Inner PFXOut }\n", "PFXIn", "PFXOut"},
+		{"unnamed_map_field", "PFXWs", "PFXWt", "type PFXWs struct{ Attrs map[string]string }\ntype PFXWt struct{ Attrs map[string]string }\n", "map[string]string", "map[string]string"},
+		{"named_basic_elem", "[]PFXID", "[]PFXKey", "type PFXID int\ntype PFXKey int\n", "PFXID", "PFXKey"},
+	} {
+		for _, viaExtend := range []bool{false, true} {
+			format := []string{"struct", "function", "variable"}[i%3]
+			cv := &Conv{
+				Family: "custom", Format: format, Params: "source " + w.src, Results: w.tgt,
+				Decls:     "type PFXIn struct{ Name string }\ntype PFXOut struct{ Name string }\ntype PFXCtx struct{ Z int }\n" + w.extraDecl,
+				ConvLines: []string{"arg:context:regex ^ctx"}, Spec: &Spec{}, ExpectFail: true,
+			}
+			if viaExtend {
+				cv.ID = "custom/fail_extend_needs_missing_context/" + w.name + "/" + format
+				cv.Decls += fmt.Sprintf("func PFXExt(source %s, ctxA PFXCtx) %s { var zero %s; return zero }\n", w.pairS, w.pairT, w.pairT)
+				cv.ConvLines = append(cv.ConvLines, "extend PFXExt")
+				cv.FailNote = "extend function for the pair needs a context the calling method does not have"
+			} else {
+				cv.ID = "custom/fail_declared_needs_missing_context/" + w.name + "/" + format
+				inner := fmt.Sprintf("\tPFXInner(source %s, ctxA PFXCtx) %s\n", w.pairS, w.pairT)
+				if format == "variable" {
+					inner = strings.Replace(inner, "PFXInner(", "PFXInner func(", 1)
+				}
+				cv.ExtraMethods = inner
+				cv.FailNote = "declared method for the pair needs a context the calling method does not have"
+			}
+			out = append(out, cv)
 		}
 	}
 	// useUnderlyingTypeMethods: a declared method on the underlying (unnamed struct) types serves the named pair,
